@@ -160,7 +160,19 @@ func freePort(network string) int {
 	}
 }
 
-func newFixture(kinds []string, mutate func(cfg *router.Config)) (*fixture, error) {
+// newFixture: the ports are found by binding and releasing; another process may take one before the router binds
+// it (checks run in parallel): a start-up that fails is tried again with fresh ports.
+func newFixture(kinds []string, mutate func(cfg *router.Config)) (f *fixture, err error) {
+	for attempt := 0; attempt < 6; attempt++ {
+		if f, err = newFixtureOnce(kinds, mutate); err == nil {
+			return f, nil
+		}
+		time.Sleep(time.Duration(20*(attempt+1)) * time.Millisecond)
+	}
+	return nil, err
+}
+
+func newFixtureOnce(kinds []string, mutate func(cfg *router.Config)) (*fixture, error) {
 	f := &fixture{ports: map[string]int{}, up: &scriptUp{}}
 	cfg := &router.Config{}
 	cfg.Upstreams = []router.UpstreamConfig{{Tag: "u0", Addr: "udp://127.0.0.1:9"}}
